@@ -596,7 +596,7 @@ def gen_cases(chk):
                 for k2 in range(tot - k1 + 7):
                     add("exhaustive-double", klb, fmt, mets, [k1, k2])
     # (c) random: longer histories, C15 parameter settings, several crashes
-    nrand = 6000 if thorough else 400
+    nrand = 4000 if thorough else 400
     for _ in range(nrand):
         n = rng.choice([1, 2, 3, 3, 4, 4, 5, 6, 7])
         style = rng.choice(["any", "any", "improving", "ties", "worsening"])
